@@ -279,6 +279,8 @@ class Engine:
         return self.getattr(base, mangle(node.attr, fr.cls), fr, path)
 
     def getattr(self, base, attr, fr, path):
+        if attr == "__class__" and not isinstance(base, (Obj, ClassRef, ModRef, SuperRef)):
+            return PyTypeOf(base)
         if isinstance(base, Obj):
             f = path.fields(base)
             if attr in f:
